@@ -133,6 +133,37 @@ void run_tree(const Execution &ex) {
         out().raw(s);
     }
     {
+        // the same questions through relative paths (working directory = the root of the tree), plain and with a leading "./"
+        std::string old_cwd = fs::current_path().string();
+        fs::current_path(base);
+        for (auto &node : nodes) {
+            std::string rel = rel_of(node);
+            if (rel.empty()) continue;
+            for (int variant = 0; variant < 2; ++variant) {
+                std::string rp = variant == 0 ? rel : "./" + rel;
+                std::string s = "\"e\":\"Rel\",\"node\":" + jstr(node) + ",\"variant\":" + std::to_string(variant);
+                try {
+                    Path p(rp);
+                    s += std::string(",\"exists\":") + (p.exists() ? "true" : "false") + ",\"file\":" + (p.isFile() ? "true" : "false") + ",\"dir\":" +
+                         (p.isDirectory() ? "true" : "false") + ",\"abs\":" + (p.isAbsolute() ? "true" : "false");
+                    s += ",\"size\":" + std::to_string(p.size());
+                    if (p.isDirectory()) {
+                        size_t n = 0;
+                        for (auto &c : p.listChildren()) {
+                            (void) c;
+                            ++n;
+                        }
+                        s += ",\"nkids\":" + std::to_string(n);
+                    }
+                } catch (const tulz::Exception &e) {
+                    s += ",\"exc\":" + std::to_string(e.type);
+                }
+                out().raw(s);
+            }
+        }
+        fs::current_path(old_cwd);
+    }
+    {
         // descriptors: asking the same questions again and again must not consume more and more of them (a per-call leak
         // makes every answer wrong once the tree is large enough to exhaust RLIMIT_NOFILE)
         auto ask_all = [&] {
